@@ -49,6 +49,11 @@ def applicable(op, shape, g):
     return False
 
 
+def ufl_domains(e):
+    import ufl
+    return ufl.domain.extract_domains(e)
+
+
 def build(op, e):
     import ufl
     e = ufl.as_ufl(e)       # a generated operand can fold to a Python number (e.g. an operator of two literals)
@@ -86,12 +91,26 @@ class C03(Prop):
         return fails
 
     OPS = ["grad", "grad", "div", "curl", "nabla_grad", "nabla_div", "dx0", "dx1"]
+    DIRECTED = [(3, "curl", (3,)), (2, "curl", (2,)), (2, "curl", ()), (3, "div", (3,)), (2, "div", (2, 2)), (3, "div", (2, 3)), (3, "nabla_div", (3,)),
+                (2, "nabla_div", (2, 3)), (3, "nabla_grad", (3,)), (2, "nabla_grad", (2, 2)), (3, "grad", (2, 3)), (2, "grad", ()), (3, "dx1", (3,)), (2, "dx0", (2, 2)),
+                (3, "curl", (3,)), (3, "nabla_div", (3, 3))]
 
     def gen_case(self, rng, k):
         g = rng.choice([2, 2, 3])
         G = gen.Gen(rng, gdim=g, math=(k % 2 == 0), compound=(k % 3 == 0), derivs=False, cond=(k % 5 == 0), variables=(k % 4 == 0),
                     reuse=0.6, minmax=(k % 7 == 0))
         ops = [o for o in self.OPS if not (o == "dx1" and g < 2)]
+        if k < len(self.DIRECTED):
+            # every operator on every operand shape it accepts, in 2D and 3D, on every run (a random draw can miss one branch of the lowering)
+            g, op, shape = self.DIRECTED[k]
+            G = gen.Gen(rng, gdim=g, math=False, compound=False, derivs=False, cond=False, variables=False, reuse=0.6, minmax=False)
+            for _ in range(20):
+                try:
+                    e = G.expr(shape, (), rng.randint(1, 2))
+                    if tuple(e.ufl_shape) == tuple(shape) and ufl_domains(e):
+                        return G, g, op, e
+                except Exception:
+                    continue
         if k % 4 == 2:
             # directed: one operator of the rule family applied to generated smooth scalar operands (variable exponents, quotients, ...)
             import ufl
